@@ -67,7 +67,7 @@ def gen_items(vseed, tier, n):
     return items[:n]
 
 
-NEPS = {"quick": 400, "thorough": 4000}
+NEPS = {"quick": 700, "thorough": 5000}
 
 
 def gen_eps_items(vseed, tier):
